@@ -35,6 +35,38 @@ def _set_locals(fn):
             _LOCALS.setdefault(n.targets[0].id, []).append(n.value)
 
 
+def _norm_builder(mi, fn, idxname, kindname):
+    """(builder with the variable holding the registered object renamed to 'obj', True when the objects come pre-filtered from a helper that
+    collects the module objects with 'type(o) is <its class argument>' called with kindname)."""
+    import copy
+    from ..inline import _Rename
+    var = None
+    for n in ast.walk(fn):
+        if isinstance(n, ast.Assign) and isinstance(n.targets[0], ast.Subscript) and norm(n.targets[0].value) == idxname and isinstance(n.value, ast.Name):
+            var = n.value.id
+            break
+    pre = False
+    if var is None:
+        return fn, pre
+    for lp in ast.walk(fn):
+        if isinstance(lp, ast.For) and isinstance(lp.target, ast.Name) and lp.target.id == var and isinstance(lp.iter, ast.Call) \
+                and isinstance(lp.iter.func, ast.Name) and lp.iter.func.id in mi.functions and len(lp.iter.args) == 1 and norm(lp.iter.args[0]) == kindname:
+            h = mi.functions[lp.iter.func.id]
+            hp = [a.arg for a in h.args.args]
+            rets = [r for r in ast.walk(h) if isinstance(r, ast.Return) and isinstance(r.value, ast.Name)]
+            if len(hp) == 1 and len(rets) == 1:
+                lst = rets[0].value.id
+                apps = [c for c in ast.walk(h) if isinstance(c, ast.Call) and isinstance(c.func, ast.Attribute) and c.func.attr == 'append'
+                        and norm(c.func.value) == lst and len(c.args) == 1 and isinstance(c.args[0], ast.Name)]
+                if apps and all((('type(%s)' % a.args[0].id, 'is', hp[0]) in facts(guards_of(h, a) or [])
+                                 or ('type(%s)' % a.args[0].id, '==', hp[0]) in facts(guards_of(h, a) or [])) for a in apps):
+                    pre = True
+    if var != 'obj':
+        fn = _Rename({var: 'obj'}).visit(copy.deepcopy(fn))
+        ast.fix_missing_locations(fn)
+    return fn, pre
+
+
 def _key_eval(e, obj):
     """Evaluate an index key expression over a record."""
     if isinstance(e, ast.Constant):
@@ -216,6 +248,7 @@ def check(run):
             raise AnalysisError('anchored function vanished: %s' % builder)
         keyexprs = []
         filt = []
+        fn, prefiltered = _norm_builder(mi, fn, idxname, kindname)
         _set_locals(fn)
         for n in ast.walk(fn):
             if isinstance(n, ast.Assign) and isinstance(n.targets[0], ast.Subscript) and norm(n.targets[0].value) == idxname:
@@ -223,11 +256,13 @@ def check(run):
                     continue        # something other than the object itself is stored: not a key of the registry
                 keyexprs.append(n.targets[0].slice)
                 f = facts(guards_of(fn, n) or [])
-                filt.append(('type(obj)', 'is', kindname) in f or ('type(obj)', '==', kindname) in f)
+                filt.append(prefiltered or ('type(obj)', 'is', kindname) in f or ('type(obj)', '==', kindname) in f)
                 others = sorted(a for a in f if a[0].startswith(('type(obj)', 'isinstance(obj')) and a != ('type(obj)', 'is', kindname)
                                 and a != (kindname, 'is', 'type(obj)') and not (a[1] in ('is not', '!=')))
         if not keyexprs:
-            raise AnalysisError('C19: no index stores found in %s' % builder)
+            run.subject('C19-R3')
+            run.undecided('C19-R3', builder, 'no store of the registered object into %s recognised' % idxname)
+            continue
         run.subject('C19-R3')
         if all(filt):
             run.ok('C19-R3', builder + ' type filter', 'type(obj) is %s holds at every index store' % kindname)
@@ -289,7 +324,7 @@ def check(run):
     indexes = {}
     for builder, idxname, recs, kindname in (('_build_element_index', '_element_index', elements, 'Element'),
                                               ('_build_isotope_index', '_isotope_index', isotopes, 'Isotope')):
-        fnb = mi.functions[builder]
+        fnb, _pre = _norm_builder(mi, mi.functions[builder], idxname, kindname)
         kx = [n.targets[0].slice for n in ast.walk(fnb) if isinstance(n, ast.Assign) and isinstance(n.targets[0], ast.Subscript) and norm(n.targets[0].value) == idxname]
         ix = {}
         _set_locals(fnb)
@@ -306,14 +341,14 @@ def check(run):
     mlists = {st.targets[0].id for st in mi.tree.body if isinstance(st, ast.Assign) and len(st.targets) == 1 and isinstance(st.targets[0], ast.Name)
               and isinstance(st.value, ast.List) and not st.value.elts}
     for builder, recs, kindname in (('_build_element_index', elements, 'Element'), ('_build_isotope_index', isotopes, 'Isotope')):
-        fnb = mi.functions[builder]
+        fnb, _pre = _norm_builder(mi, mi.functions[builder], '_element_index' if kindname == 'Element' else '_isotope_index', kindname)
         for n in ast.walk(fnb):
             if isinstance(n, ast.Call) and isinstance(n.func, ast.Attribute) and n.func.attr == 'append' and isinstance(n.func.value, ast.Name) \
                     and n.func.value.id in mlists and len(n.args) == 1 and norm(n.args[0]) == 'obj':
                 f = facts(guards_of(fnb, n) or [])
                 pool = dict(elements)
                 pool.update(isotopes)
-                if ('type(obj)', 'is', kindname) in f or ('type(obj)', '==', kindname) in f:
+                if _pre or ('type(obj)', 'is', kindname) in f or ('type(obj)', '==', kindname) in f:
                     pool = recs
                 tab = [r for r in sorted(pool.values(), key=lambda r: r.var) if not (r.get('kind') == 'Isotope' and 'element' not in r)]
                 indexes.setdefault(n.func.value.id, []).extend(tab)
